@@ -73,6 +73,17 @@ def build_corpus(tier, rng):
             if i % 3 == 1:
                 vs.append(Variant("Plain%d" % i, "unit"))
         items.append(("foreign-attrs", Item("E", vs)))
+    # the same options written with other delimiters or passed in as macro fragments (`disabled` as a `meta` fragment): all four derives
+    # read them alike
+    import copy
+    for j, (fam, it) in enumerate(list(items)):
+        if fam == "mask" and j % 9 == 4 and it.variants:
+            tw = copy.deepcopy(it)
+            if j % 2:
+                tw.via_macro = True
+            else:
+                tw.attr_delims = [[1], [2], [0, 2, 1]][j % 3]
+            items.append(("attr-forms", tw))
     G.resolve_names(ID, [it for _, it in items])
     for fam, it in items:
         fieldless = all(v.kind == "unit" for v in it.variants)
